@@ -46,6 +46,8 @@ Definition exn_code (e : exn) : Z :=
   | XDictSize => 6 | XKeyError => 7 | XDynIds => 8 | XFuel => 99
   end.
 
+Definition exn_code_of (r : res unit) : Z := match r with Ok _ _ => 0 | Crash e _ => exn_code e end.
+
 Definition enc_res (r : res unit) : list Z :=
   match r with
   | Ok _ s => 0 :: flat_map enc_item (out s)
